@@ -117,7 +117,7 @@ fn check_nopanic(s: &str, acc: &mut Acc) {
 }
 
 pub fn run(ctx: &Ctx) -> i32 {
-    let names: Vec<String> = strings(&["a", "1", "-", "."], 1, 3).into_iter().filter(|s| !s.starts_with('-')).collect();
+    let names: Vec<String> = strings(&["a", "1", "-", "."], 1, if ctx.thorough() { 4 } else { 3 }).into_iter().filter(|s| !s.starts_with('-')).collect();
     let epochs = ["", "0", "1", "12", "00", "01", "2147483647", "2147483648", "4294967295"];
     let vers = strings(&["1", "a", "."], 1, 2);
     let rels = strings(&["1", "a", "."], 1, 2);
@@ -131,7 +131,7 @@ pub fn run(ctx: &Ctx) -> i32 {
     let mut s1 = SubReport::new(
         "nevra",
         "A",
-        &format!("all {} tuples: name ∈ strings of length 1..3 over {{a,1,-,.}} not starting with '-', epoch ∈ {:?}, version and release ∈ strings of length 1..2 over {{1,a,.}}, arch ∈ {:?}; to_string/parse, as_normalized_form/parse, parse_values, nvra; plus the asset packages' own NEVRAs", n, epochs, archs),
+        &format!("all {} tuples: name ∈ strings of length 1..3 over {{a,1,-,.}} not starting with '-', epoch ∈ {:?}, version and release ∈ strings of length 1..2 over {{1,a,.}}, arch ∈ {:?}; to_string/parse, as_normalized_form/parse, parse_values, nvra; plus the asset packages' own NEVRAs, plus 891 tuples whose name contains the package's own version, release, architecture or the whole '-V-R.A' text (once, twice, with a suffix)", n, epochs, archs),
         a,
     );
     // asset packages
@@ -152,6 +152,33 @@ pub fn run(ctx: &Ctx) -> i32 {
         }
     }
     s1.acc.merge(assets);
+    // names that contain (pieces of) the package's own version-release.arch text, as kernel module and debuginfo packages do
+    let mut selfsim = Acc::new();
+    for v in ["1", "1.a", "5.17.5"] {
+        for r in ["1", "a", "200.fc35"] {
+            for a in ["a", "x86_64", "noarch"] {
+                for e in ["", "0", "7"] {
+                    let pieces = [
+                        format!("x-{}-{}.{}", v, r, a),
+                        format!("{}-{}.{}", v, r, a),
+                        format!("x-{}-{}.{}-y", v, r, a),
+                        format!("x-0:{}-{}.{}", v, r, a).replace(':', "_"),
+                        format!("x-{}", v),
+                        format!("x-{}-{}", v, r),
+                        format!("x.{}", a),
+                        format!("{}.{}", r, a),
+                        format!("x-{}-{}.{}-{}-{}.{}", v, r, a, v, r, a),
+                        v.to_string(),
+                        a.to_string(),
+                    ];
+                    for n in pieces {
+                        check_nevra(&n, e, v, r, a, 1 << 60, &mut selfsim);
+                    }
+                }
+            }
+        }
+    }
+    s1.acc.merge(selfsim);
 
     let erad = [epochs.len() as u64, vers.len() as u64, rels.len() as u64];
     let en = vlib::par::product(&erad);
@@ -180,7 +207,7 @@ pub fn run(ctx: &Ctx) -> i32 {
     let s3 = SubReport::new("compression", "A", "all five CompressionType values through Display then FromStr", c);
 
     let alpha = ["a", "1", "-", ".", ":"];
-    let l = if ctx.thorough() { 8 } else { 6 };
+    let l = if ctx.thorough() { 10 } else { 6 };
     let nn = strings_count(alpha.len(), l);
     let d = merge(par_fold(nn, Acc::new, |i, acc| {
         let mut t = vec![];
